@@ -60,13 +60,13 @@ def runTo (σ : Sys) (t : Tid) (ch : Choice) (want : Ev) : Nat → Except String
       if evEq e want then .ok σ' else .error s!"thread {t} at {pcName σ t} emits {repr e}"
 
 /-- the releases that follow an event without a hook of their own: Unlock after the last `reg` / `unreg` (+ `fin`) -/
-def release (σ : Sys) (t : Tid) : Nat → Sys
+def bpRelease (σ : Sys) (t : Tid) : Nat → Sys
   | 0 => σ
   | fuel + 1 =>
     match (σ.thr t).pc with
     | .r3 | .u3 =>
       match σ.step t {} with
-      | some (σ', _) => release σ' t fuel
+      | some (σ', _) => bpRelease σ' t fuel
       | none => σ
     | _ => σ
 
@@ -93,19 +93,19 @@ def bpStepEv (r : BPReplay) (e : Ev) : Except String BPReplay :=
       | .ok σ => .ok { r with sys := σ, tokens := upd r.tokens w (r.tokens w + 1) }
   | .try_ w k got =>
     let σ := setCell r.sys k (if got then max 1 (r.sys.sh.lists k) else 0) false
-    (runTo σ w {} e 4).map fun σ => { r with sys := release σ w 2 }
+    (runTo σ w {} e 4).map fun σ => { r with sys := bpRelease σ w 2 }
   | .abort w =>
     let σ := match nextKey r.sys w with
       | some k => setCell r.sys k (r.sys.sh.lists k) true
       | none => r.sys
-    (runTo σ w {} e 4).map fun σ => { r with sys := release σ w 2 }
+    (runTo σ w {} e 4).map fun σ => { r with sys := bpRelease σ w 2 }
   | .wake w =>
     if r.tokens w == 0 then .error s!"waiter {w} consumes a wake-up that was never offered" else
     let σ := { r.sys with sh := { r.sys.sh with full := upd r.sys.sh.full w true } }
     (runTo σ w {} e 2).map fun σ => { r with sys := σ, tokens := upd r.tokens w (r.tokens w - 1) }
   | .timeout w => (runTo r.sys w { timer := true } e 2).map fun σ => { r with sys := σ }
   | .reg w _ | .block w _ | .unreg w _ | .fin w =>
-    (runTo r.sys w {} e (4 + (r.sys.thr w).keys.length)).map fun σ => { r with sys := release σ w 2 }
+    (runTo r.sys w {} e (4 + (r.sys.thr w).keys.length)).map fun σ => { r with sys := bpRelease σ w 2 }
 
 def bpCall (r : BPReplay) (w : Tid) (tmo : Int) (keys : List Key) : Except String BPReplay :=
   match r.sys.step w { call := .bpop keys tmo } with
